@@ -102,10 +102,10 @@ pub(crate) fn run_scheduling_solver(
                     if worker.is_free()
                         && !worker.is_request_blocked(batch.resource_rq_id, v_idx)
                         && worker.has_time_to_run(rq.min_time(), now)
+                        // Workers of a scheduler query (custom workers) are not in any group
                         && worker_groups
                             .get(&worker.configuration.group)
-                            .unwrap()
-                            .is_capable_to_run_rq(rq, now, worker_map)
+                            .is_some_and(|g| g.is_capable_to_run_rq(rq, now, worker_map))
                     {
                         set_placement_name(&mut solver, worker.id, batch.resource_rq_id, v_idx);
                         let v = create_mn_var(
